@@ -64,6 +64,8 @@ def run(an: Analysis, rep):
                                                     "code object hashes them - a list left in a field of a nested CodeData makes from_code of the parent raise"))
     from rules import c04 as _c04w, c02 as _c02r
     from rules.common import rejection_paths_rule
+    rep.run(_c02r.r02f, an, SharedRules(rep, "R14.D", "the decoder's instruction function folded over witness code units (shared with C02's R02.F): every entry of the constants table that no instruction loads is "
+                                                     "listed among the unreferenced entries - also next to an unreferenced name at the same index, also in a function with a docstring and parameters - else a nested code object there is never yielded"))
     rep.run(_c04w.r04f, an, SharedRules(rep, "R14.W", "the decoder's header logic folded over witness code objects of every kind of scope (shared with C04's R04.W): a nested scope the decoder refuses "
                                                       "(a class body that reads a local of the enclosing function) makes from_code of everything around it raise"))
     rep.run(rejection_paths_rule, an, SharedRules(rep, "R14.R", "every place where from_code can stop with an exception is one confirmed by reading (shared with C02's R02.R)"), "R02.R", ["from_code"],
